@@ -16,10 +16,15 @@ import (
 	"pgregory.net/rapid"
 
 	"verifharness/lab"
+	"verifharness/wire"
 )
 
 // connection states at the moment Stop is called
-var c11States = []string{"idle", "idle-after-requests", "partial-frame", "tls-no-hello", "tls-partial-hello", "tls-idle", "busy-pipelining", "not-reading"}
+var c11States = []string{"idle", "idle-after-requests", "partial-frame", "tls-no-hello", "tls-partial-hello", "tls-idle", "busy-pipelining", "not-reading",
+	"not-reading-then-unbind", // asks for a huge answer, never reads it, sends Unbind: the read loop has ended, a handler is parked in Write
+	"starttls-stalled",        // asks for a huge answer AND StartTLS, never reads: a handshake is pending behind a parked writer
+	"starttls-no-hello",       // got the StartTLS response but never starts the handshake
+}
 
 type c11Scenario struct {
 	States     []string `json:"states"`
@@ -58,6 +63,7 @@ func c11Run(index int, raw json.RawMessage) lab.WorkerResult {
 	}
 	mux, _ := gldap.NewMux()
 	_ = mux.DefaultRoute(h)
+	_ = mux.ExtendedOperation(lab.StartTLSHandler(main.ServerTLS()), gldap.ExtendedOperationStartTLS)
 	var plain, tlsSrv *lab.Server
 	needTLS, needPlain := false, len(s.States) == 0
 	for _, stt := range s.States {
@@ -165,6 +171,16 @@ func c11Run(index int, raw json.RawMessage) lab.WorkerResult {
 			}()
 		case "not-reading":
 			_, _ = raw.Write(simpleReq("search", base+500).Bytes())
+		case "not-reading-then-unbind":
+			_, _ = raw.Write(append(simpleReq("search", base+500).Bytes(), simpleReq("unbind", base+501).Bytes()...))
+		case "starttls-stalled":
+			_, _ = raw.Write(append(simpleReq("search", base+500).Bytes(), ReqSpec{Req: wire.Req{Kind: "extended", MsgID: base + 502, ExtName: []byte(wire.OIDStartTLS)}}.Bytes()...))
+		case "starttls-no-hello":
+			cl := lab.Wrap(raw)
+			_ = cl.Send(ReqSpec{Req: wire.Req{Kind: "extended", MsgID: base + 502, ExtName: []byte(wire.OIDStartTLS)}}.Bytes())
+			if _, err := cl.Next(10 * time.Second); err != nil {
+				return skip("starttls response missing: " + err.Error())
+			}
 		}
 	}
 	// let the states settle: handlers of not-reading clients fill the socket buffers
@@ -344,7 +360,7 @@ func c11Exec(c c11Batch, st *lab.Stats) *lab.Fail {
 func TestC11Enum(t *testing.T) {
 	lab.SkipIfReplayOther(t, "enum")
 	st := lab.GetStats("C11", "enum")
-	st.SetRule("complete enumeration: no connection, every single connection state of {idle, idle after served requests, first k bytes of a frame sent, TCP connected to a TLS listener without / with a partial ClientHello, idle inside a TLS session, pipelining requests as fast as it can, requesting a 13 MB answer and never reading} and every unordered pair of states, each with and without a concurrent second Stop; clients never close by themselves; executed in worker child processes; oracle = Stop returns and Run returns nil within 5 s (a correct server needs milliseconds), a miss counts only with two identical goroutine censuses 0.5 s apart; non-trivial = >= 1 connection open at Stop; distinct by scenario")
+	st.SetRule("complete enumeration: no connection, every single connection state of {idle, idle after served requests, first k bytes of a frame sent, TCP connected to a TLS listener without / with a partial ClientHello, idle inside a TLS session, pipelining requests as fast as it can, requesting a 13 MB answer and never reading, the same followed by an Unbind, the same together with a StartTLS request, StartTLS answered but handshake never started} and every unordered pair of states, each with and without a concurrent second Stop; clients never close by themselves; executed in worker child processes; oracle = Stop returns and Run returns nil within 5 s (a correct server needs milliseconds), a miss counts only with two identical goroutine censuses 0.5 s apart; non-trivial = >= 1 connection open at Stop; distinct by scenario")
 	defer lab.FlushAll()
 	if lab.ReplayInto(t, st, "enum", c11Exec) {
 		return
